@@ -78,6 +78,18 @@ func (r *FnRun) isFreshAddr(t *Term) bool {
 func (r *FnRun) execInstr(st *State, ins ssa.Instruction, in map[*ssa.BasicBlock][]edge) *State {
 	tb := r.tb()
 	e := r.e
+	if v, ok := ins.(ssa.Value); ok && r.depth == 0 {
+		defer func() {
+			if x, ok := r.vals[v]; ok {
+				var ls []leaf
+				func() {
+					defer func() { recover() }()
+					leaves(x, v.Name(), &ls)
+				}()
+				r.root.watch = append(r.root.watch, ls...)
+			}
+		}()
+	}
 	switch x := ins.(type) {
 	case *ssa.DebugRef:
 		if id, ok := x.Expr.(interface{ String() string }); ok && !x.IsAddr {
@@ -313,6 +325,8 @@ func (r *FnRun) execAlloc(st *State, a *ssa.Alloc) {
 			}
 		}
 		r.root.localAddrs = append(r.root.localAddrs, addr)
+		r.root.localSizes = append(r.root.localSizes, r.e.sizeof(elem))
+		r.addFact(tb.ULt(addr, tb.BVU(64, 1<<47)))
 		r.objStore(st, addr, elem, r.e.zeroVal(elem))
 		r.vals[a] = PtrV{Kind: PObj, Addr: addr, T: elem}
 	case akBytes:
@@ -335,7 +349,7 @@ func (r *FnRun) freshRaw(st *State, addr, size *Term) {
 	r.addFact(tb.Forall([]*Term{k}, tb.Implies(tb.ULt(tb.Sub(k, addr), size), tb.Not(tb.Select(st.RA, k))),
 		[]*Term{tb.Select(st.RA, k)}))
 	if size.IsConst() && size.Val.Int64() <= 32 {
-		for i := int64(0); i < size.Val.Int64(); i += 8 {
+		for i := int64(0); i < size.Val.Int64(); i++ {
 			st.RA = tb.Store(st.RA, tb.Add(addr, tb.BVI(64, i)), tb.True())
 		}
 	} else {
@@ -417,6 +431,14 @@ func (r *FnRun) execIndexAddr(st *State, x *ssa.IndexAddr) {
 			np.Addr = tb.Add(xv.Addr, tb.Mul(idx, tb.BVI(64, sz)))
 			np.T = at.Elem()
 			r.vals[x] = np
+		case PObj:
+			at, ok := xv.T.Underlying().(*types.Array)
+			if !ok {
+				r.unsupported("IndexAddr on typed pointer to non-array")
+			}
+			r.boundsCheck(st, idx, tb.BVI(64, at.Len()), x.Pos(), describeInstr(x))
+			sz := r.e.sizeof(at.Elem())
+			r.vals[x] = PtrV{Kind: PObj, Addr: tb.Add(xv.Addr, tb.Mul(idx, tb.BVI(64, sz))), T: at.Elem()}
 		case PLocal:
 			at, ok := xv.T.Underlying().(*types.Array)
 			if !ok || !idx.IsConst() {
@@ -514,6 +536,18 @@ func (r *FnRun) execSlice(st *State, x *ssa.Slice) {
 		r.vals[x] = PSlice{Ptr: tb.Add(xv.Ptr, tb.Mul(lo, tb.BVI(64, sz))), Len: tb.Sub(hi, lo), Cap: tb.Sub(xv.Cap, lo), Elem: xv.Elem}
 	case PtrV, Scalar:
 		p := r.asPtr(xv, x.X.Type())
+		if p.Kind == PObj {
+			if at, ok := p.T.Underlying().(*types.Array); ok {
+				n := tb.BVI(64, at.Len())
+				if hi == nil {
+					hi = n
+				}
+				check(n, hi)
+				sz := r.e.sizeof(at.Elem())
+				r.vals[x] = PSlice{Ptr: tb.Add(p.Addr, tb.Mul(lo, tb.BVI(64, sz))), Len: tb.Sub(hi, lo), Cap: tb.Sub(n, lo), Elem: at.Elem()}
+				return
+			}
+		}
 		if p.Kind != PByteObj {
 			r.unsupported("slice of pointer kind %d", p.Kind)
 		}
